@@ -73,6 +73,9 @@ fn judge(pr: &Pristine, hist: &[ROp], patches: &[Patch], after_op: Option<usize>
         st.count("alteration_not_detectable_by_crc", 1);
         return None;
     }
+    if patches.iter().any(|p| matches!(p, Patch::Set { offset, bytes } if offset % 1024 == 1020 && bytes.len() == 4)) {
+        st.probe("near_miss_checksum_stored", true);
+    }
     let ctx = new_ctx(vec![]);
     // static validation of the altered bytes
     {
@@ -200,6 +203,44 @@ pub fn draw_alteration(f: &mut Rng, image_len: usize) -> Vec<Patch> {
             ]
         }
     }
+}
+
+fn crc32_ieee(data: &[u8]) -> u32 {
+    let mut crc = 0xFFFF_FFFFu32;
+    for b in data {
+        crc ^= *b as u32;
+        for _ in 0..8 {
+            crc = if crc & 1 != 0 { (crc >> 1) ^ 0xEDB8_8320 } else { crc >> 1 };
+        }
+    }
+    !crc
+}
+
+/// Alterations that carry a checksum which is right in every respect but one: the byte order, the
+/// polynomial or the final inversion. "CRC-32C stored big-endian" makes each of them a bad page.
+pub fn draw_near_miss_checksum(f: &mut Rng, image: &[u8]) -> Vec<Patch> {
+    let pages = (image.len() / 1024).max(1) as u64;
+    let base = (f.below(pages) * 1024) as usize;
+    if image.len() < base + 1024 {
+        return vec![Patch::Xor { offset: base as u64, mask: 1 }];
+    }
+    let mut payload = image[base..base + 1020].to_vec();
+    let mut out = Vec::new();
+    let kind = f.below(5);
+    if kind != 0 {
+        let (o, m) = (f.usize_below(1020), 1u8 << f.below(8));
+        payload[o] ^= m;
+        out.push(Patch::Xor { offset: (base + o) as u64, mask: m });
+    }
+    let c = page::crc32c(&payload);
+    let stored: [u8; 4] = match kind {
+        0 | 1 => c.to_le_bytes(),
+        2 => crc32_ieee(&payload).to_be_bytes(),
+        3 => (!c).to_be_bytes(),
+        _ => crc32_ieee(&payload).to_le_bytes(),
+    };
+    out.push(Patch::Set { offset: (base + 1020) as u64, bytes: stored.to_vec() });
+    out
 }
 
 fn run_odd_page_size(case: &Case, size: u64, pages: u64, seed: u64, flip: Option<u64>, st: &mut RunStats) -> Outcome<Case> {
@@ -381,7 +422,7 @@ impl Prop for C07 {
     fn meta(&self) -> Meta {
         Meta {
             level: "fault_enumeration",
-            rule: "pristine file (crate writer or refcodec producer, 2-40 pages, several sections) -> alteration -> reader history. Run indices 0..4 (0..24 in thorough) enumerate EVERY single-bit flip of every page of a small file, each judged with validate_crc, raw_xml, open, xml, listings, raw + simple iteration of every cloud and every blob. Other indices sample alterations (1-3 bit flips in a page, bursts <= 32 bits, 1-64 byte overwrites, checksum-only damage, zeroed bytes, header bytes of page 0, two pages) applied before open, BETWEEN two operations of a 1-8 operation history (a page goes bad while it may be the cached page), or at a drawn device-operation instant INSIDE whatever call is in progress (SimDisk's Mutate fault). Every sixteenth run instead builds a paged byte string with a page size other than 1024 (64..70001, all residues modulo 8; checksums by the independent CRC) for the static validate_crc / raw_xml, with or without one flipped bit. Oracle: validate_crc is Ok on the pristine file and Err on every altered one (altered = independent bitwise CRC-32C of a page payload differs from its stored big-endian checksum; an alteration that is not detectable this way, a 2^-32 event, is counted and skipped); every operation is Err or equals the pristine result, also after earlier failures on the same reader; pages written by the library carry the independent CRC-32C; the whole batch is executed by a second harness build with the crc32c cargo feature and the per-run digests (file bytes, results) must be identical. Distinct = alteration shape x history; every enumerated alteration is non-trivial".into(),
+            rule: "pristine file (crate writer or refcodec producer, 2-40 pages, several sections) -> alteration -> reader history. Run indices 0..4 (0..24 in thorough) enumerate EVERY single-bit flip of every page of a small file, each judged with validate_crc, raw_xml, open, xml, listings, raw + simple iteration of every cloud and every blob. Other indices sample alterations (1-3 bit flips in a page, bursts <= 32 bits, 1-64 byte overwrites, checksum-only damage, zeroed bytes, header bytes of page 0, two pages; every eighth run a near-miss checksum: the right CRC-32C in little-endian order, its complement, or the IEEE CRC-32 of the - possibly altered - payload) applied before open, BETWEEN two operations of a 1-8 operation history (a page goes bad while it may be the cached page), or at a drawn device-operation instant INSIDE whatever call is in progress (SimDisk's Mutate fault). Every sixteenth run instead builds a paged byte string with a page size other than 1024 (64..70001, all residues modulo 8; checksums by the independent CRC) for the static validate_crc / raw_xml, with or without one flipped bit. Oracle: validate_crc is Ok on the pristine file and Err on every altered one (altered = independent bitwise CRC-32C of a page payload differs from its stored big-endian checksum; an alteration that is not detectable this way, a 2^-32 event, is counted and skipped); every operation is Err or equals the pristine result, also after earlier failures on the same reader; pages written by the library carry the independent CRC-32C; the whole batch is executed by a second harness build with the crc32c cargo feature and the per-run digests (file bytes, results) must be identical. Distinct = alteration shape x history; every enumerated alteration is non-trivial".into(),
             assumptions: vec![
                 "E57Reader::header() and the static raw_xml on a damaged page 0 are outside the property's list of read operations".into(),
                 "misplaced pages that carry their own valid checksum are not 'altered pages' in the sense of this property".into(),
@@ -397,6 +438,7 @@ impl Prop for C07 {
                 "page_size_other_than_1024".into(),
                 "open_rejected_altered_file".into(),
                 "second_crc_backend_compared".into(),
+                "near_miss_checksum_stored".into(),
             ],
         }
     }
@@ -474,8 +516,8 @@ impl Prop for C07 {
         let hlen = 1 + h.usize_below(8);
         let hist = gen_history(&mut h, hlen);
         let mut f = Rng::stream(rc.run_seed, "fault");
-        let len = build_image(&prog, &source, None).map(|(i, _)| i.len()).unwrap_or(1024);
-        let patches = draw_alteration(&mut f, len);
+        let image = build_image(&prog, &source, None).map(|(i, _)| i).unwrap_or_else(|_| vec![0u8; 1024]);
+        let patches = if rc.index % 8 == 3 { draw_near_miss_checksum(&mut f, &image) } else { draw_alteration(&mut f, image.len()) };
         if f.chance(1, 3) {
             // an instant inside the session: biased to early operations (open, first packets)
             let at = if f.chance(1, 2) { f.below(12) } else { f.below(400) };
